@@ -36,7 +36,8 @@ ALT_KINDS = ('opt', 'star', 'plus', 'right', 'left', 'choice', 'seq', 'sep', 're
 
 
 class Renderer:
-    def __init__(self, alt=None, bytes_mode=False, opbreak=None, parens=False):
+    def __init__(self, alt=None, bytes_mode=False, opbreak=None, parens=False, eq='='):
+        self.eq = eq                # '=' | ':' | '=>' wherever a definition token is allowed (rules, class fields, let, keyword arguments)
         self.alt = alt
         self.bytes_mode = bytes_mode
         self.n = 0
@@ -165,7 +166,7 @@ class Renderer:
                 kw.append('require_separator=True')
             return 'Sep(%s)' % ', '.join([R(el), R(sp)] + kw)
         if k == 'let':
-            return '(let %s = %s in %s)' % (e[1], R(e[2]), R(e[3]))
+            return '(let %s %s %s in %s)' % (e[1], self.eq, R(e[2]), R(e[3]))
         if k == 'where':
             return '(%s%s%s)' % (R(e[1]), self.op('where'), R(e[2]))
         if k == 'apply':
@@ -173,7 +174,7 @@ class Renderer:
         if k == 'applyl':
             return '(%s%s%s)' % (R(e[1]), self.op('<|'), R(e[2]))
         if k == 'call':
-            a = [R(x) for x in e[2]] + ['%s=%s' % (kk, R(x)) for kk, x in e[3]]
+            a = [R(x) for x in e[2]] + ['%s%s%s' % (kk, self.eq if self.eq != '=' else '=', R(x)) for kk, x in e[3]]
             return '%s(%s)' % (e[1], ', '.join(a))
         if k == 'supercall':
             a = [R(x) for x in e[2]] + ['%s=%s' % (kk, R(x)) for kk, x in e[3]]
@@ -201,7 +202,7 @@ def expr(e, alt=None, bytes_mode=False):
 def spec(sp, alt=None, eq='=', sep='\n', opbreak=None, parens=False, comments=False, blank=False,
          ignore_kw=None, bare=False):
     """Render a Spec to a grammar description (layout options: C19)."""
-    R = Renderer(alt, sp.bytes_mode, opbreak, parens)
+    R = Renderer(alt, sp.bytes_mode, opbreak, parens, eq)
     if bare:
         # a grammar that is just an expression
         assert len(sp.rules) == 1 and not sp.ignores and not sp.name
@@ -237,7 +238,7 @@ def spec(sp, alt=None, eq='=', sep='\n', opbreak=None, parens=False, comments=Fa
             ms = []
             for (mn, om, ex) in d[2]:
                 if mn:
-                    ms.append('    %s%s: %s' % ('let ' if om else '', mn, R.r(ex)))
+                    ms.append('    %s%s%s %s' % ('let ' if om else '', mn, ':' if eq == '=' else ' ' + ('=' if eq == ':' else eq), R.r(ex)))
                 elif om == 'requires':
                     ms.append('    requires %s' % R.r(ex))
                 else:
